@@ -265,6 +265,22 @@ PROPS = {
         real_vs_stub="real: sema.connectionLimitedBackend, semaphore; simulated: wrapped object store, goroutine choice",
         assumptions=SIM_ASSUME + ["an operation 'starts' when it arrives at the wrapped backend; operations that passed the freeze gate before Freeze returned count as in flight"],
     ),
+    "C38": dict(
+        pkg="internal/repository", test="TestVerifC38", level="exploration", quick_s=45, thorough_s=600,
+        text="a real cache directory and the real caching backend over the simulated store, cold or pre-warmed; 1-4 reader goroutines load "
+             "snapshot files, index files, tree blobs (cached packs) and data blobs (uncached packs) through LoadUnpacked/LoadBlob while a gremlin "
+             "task at scheduling points deletes, truncates, bit-flips, swaps, extends or empties cache files, clears a cache subdirectory or "
+             "deletes a file from the repository; every load returns exactly the original content or fails; without interference nothing fails and "
+             "index/snapshot files are downloaded once even under concurrent loads; after a final undisturbed round of loads every cache file "
+             "equals the repository's bytes (corrupted copies were replaced)",
+        note="a second restic process sharing the cache directory is represented by the gremlin's file operations; interference happens at "
+             "scheduling points, not in the middle of a read system call",
+        design_ref="3 / C38",
+        rule="one run = cold/warm cache x readers x load plans x gremlin actions x seeded schedule; distinct = distinct event-log hash among runs "
+             "with a real scheduling choice or fired fault",
+        real_vs_stub="real: cache.Cache, cacheBackend, Repository.LoadUnpacked/LoadRaw/LoadBlob, index; real cache directory; simulated: object store",
+        assumptions=SIM_ASSUME,
+    ),
     "C42": dict(
         pkg="internal/data", test="TestVerifC42", level="exploration", quick_s=30, thorough_s=600,
         text="generated DAGs of 1-25 tree blobs with heavy sharing of subtrees (also between several roots), files referencing data blobs from a small "
